@@ -1,4 +1,5 @@
 import CkbVerif.Lemmas.Freezer
+import CkbVerif.Lemmas.FreezerTop
 
 /-!
 # C09 — the freezer never loses or corrupts a frozen item, whatever crash interrupts it
@@ -264,5 +265,447 @@ example : let s := (run 50 demoSys demoOps).getD demoSys
     offset make a 12-byte entry -/
 theorem entry_layout : Gen.Freezer.INDEX_ENTRY_SIZE = Gen.Freezer.FILE_ID_BYTES / 8 + 8 ∧
     0 < Gen.Freezer.INDEX_ENTRY_SIZE := by decide
+
+
+/-! ## the read-handle LRU cannot change an answer
+
+`Handle.cache` (the ids in the `files` LRU) is not constrained by `Inv`: every theorem above holds
+for any cache content, and `truncate` removes exactly the cached files above the new head.  The
+statement below makes the consequence explicit: two systems that hold the same items — whatever
+their caches are and whatever orphan files lie above their heads — go through any sequence of
+appends, truncations and re-opens with identical answers.  (`Model/FreezerTop.lean` has the reading
+of the Rust code behind it.) -/
+
+def Op.plain : Op → Bool
+  | .append _ => true
+  | .truncate _ => true
+  | .reopen => true
+  | _ => false
+
+theorem same_items_same_answers {s t : Sys} {items : List Bytes} (hs : Inv s items) (ht : Inv t items) :
+    s.h.number = t.h.number ∧ ∀ i, retrieve s.h s.d i = retrieve t.h t.d i := by
+  refine ⟨by rw [hs.2.1, ht.2.1, hs.1.idx_length, ht.1.idx_length], fun i => ?_⟩
+  by_cases hi : i = 0 ∨ items.length < i
+  · rw [retrieve_absent hs.1 hs.2 i hi, retrieve_absent ht.1 ht.2 i hi]
+  · obtain ⟨it, hit⟩ : ∃ it, items[i - 1]? = some it :=
+      ⟨items[i - 1]'(by omega), List.getElem?_eq_getElem _⟩
+    rw [retrieve_stored hs.1 hs.2 i it (by omega) hit, retrieve_stored ht.1 ht.2 i it (by omega) hit]
+
+theorem lru_cannot_change_answers (max : Nat) : ∀ (ops : List Op), (∀ op ∈ ops, op.plain = true) →
+    ∀ (s t : Sys) (items : List Bytes), Inv s items → Inv t items →
+    ∃ s' t' items', run max s ops = some s' ∧ run max t ops = some t' ∧
+      Inv s' items' ∧ Inv t' items' ∧
+      s'.h.number = t'.h.number ∧ ∀ i, retrieve s'.h s'.d i = retrieve t'.h t'.d i
+  | [], _, s, t, items, hs, ht =>
+    ⟨s, t, items, rfl, rfl, hs, ht, (same_items_same_answers hs ht).1, (same_items_same_answers hs ht).2⟩
+  | op :: ops, hp, s, t, items, hs, ht => by
+    obtain ⟨s1, i1, hs1, hsp1, hi1⟩ := step_inv max s items op hs
+    obtain ⟨t1, j1, ht1, htp1, hj1⟩ := step_inv max t items op ht
+    have hpl := hp op (by simp)
+    have : i1 = j1 := by
+      cases op with
+      | append x => simp only [SpecStep] at hsp1 htp1; rw [hsp1, htp1]
+      | truncate k => simp only [SpecStep] at hsp1 htp1; rw [hsp1, htp1]
+      | reopen => simp only [SpecStep] at hsp1 htp1; rw [hsp1, htp1]
+      | crashAppend x il fl => simp [Op.plain] at hpl
+      | crash il fl => simp [Op.plain] at hpl
+    subst this
+    obtain ⟨s', t', items', h1, h2, h3⟩ :=
+      lru_cannot_change_answers max ops (fun o ho => hp o (by simp [ho])) s1 t1 i1 hi1 hj1
+    exact ⟨s', t', items', by simp [run, hs1, h1], by simp [run, ht1, h2], h3⟩
+
+/-- two handles on the same disk that differ in the cached ids only (and in orphan files the
+    cache would have deleted): after a cross-file truncate one of them leaves file 1 behind, the
+    answers stay the same -/
+example :
+    let s := (run 50 demoSys demoOps).getD demoSys
+    let a := truncate s.h s.d 2
+    let b := truncate { s.h with cache := [] } s.d 2
+    ((a.2.files 1).length, (b.2.files 1).length, a.1.number, b.1.number,
+      retrieve a.1 a.2 2 == retrieve b.1 b.2 2, retrieve a.1 a.2 3 == retrieve b.1 b.2 3) =
+      (0, 15, 3, 3, true, true) := by decide
+
+/-! ## the `Freezer` layer (`freezer/src/freezer.rs`, model `Model/FreezerTop.lean`)
+
+Items are blocks; `c : Cfg` carries the compression pair `(cmp, dcmp)` and the block codec
+`(enc, dec)`; **every theorem assumes `c.Ok`: `dcmp (cmp x) = some x` (decompress ∘ compress = id)
+and `dec (enc b) = some b`** — nothing else about snappy or molecule.  `TopInv c s chain` (in
+`Lemmas/FreezerTop.lean`): the disk holds exactly `chain.map (cmp ∘ enc)`, the handle agrees with
+it, `chain` is parent-linked and `s.tip` is its last block. -/
+
+open CkbVerif.FreezerTop
+
+/-- what an observer reads from a freezer that holds `chain`: `number`, `tip`, every `retrieve` -/
+structure Holds (c : Cfg) (s : Top) (chain : List Block) : Prop where
+  number : s.number = chain.length + 1
+  /-- ONE parent-linked chain -/
+  linked : Linked chain
+  /-- `tip` is the last stored block (`none` iff nothing is stored) -/
+  tip : s.tip = chain.getLast?
+  /-- blocks `1 .. number-1` byte-for-byte (index 0 is the default entry: `retrieve 0 = None`) -/
+  stored : ∀ i b, 1 ≤ i → chain[i - 1]? = some b → retrieveTop c s i = .some (c.enc b)
+  absent : ∀ i, i = 0 ∨ chain.length < i → retrieveTop c s i = .none
+
+theorem holds_of_inv {c : Cfg} (ok : c.Ok) {s : Top} {chain : List Block} (hi : TopInv c s chain) :
+    Holds c s chain :=
+  ⟨hi.number, hi.linked, hi.tip,
+   fun i b h1 h2 => retrieveRaw_stored ok hi.good hi.handle i b h1 h2,
+   fun i h => retrieveRaw_absent hi.good hi.handle i h⟩
+
+/-- `Freezer::open` on a fresh directory: number 1, no tip -/
+theorem open_top_empty (c : Cfg) (ok : c.Ok) : ∃ s, openTop c emptyDisk = some s ∧ TopInv c s [] := by
+  obtain ⟨h, d, ho, hg, hh⟩ := open_empty
+  obtain ⟨s, hs, hi, _, _⟩ := openTop_of_open (c := c) (chain := []) ok ho hg hh Linked.nil
+  exact ⟨s, hs, hi⟩
+
+inductive TopOp where
+  /-- `freeze(threshold, get_block_by_number)`; `stopped n` = the stop flag as seen by the
+      iteration for height `n` (so every prefix of the loop is a `freeze`) -/
+  | freeze (thr : Nat) (get : Nat → Option Block) (stopped : Nat → Bool)
+  | truncate (k : Nat)
+  | reopen
+  /-- a crash that leaves the index at `il` bytes and the head data file at `fl`, then `open` -/
+  | crash (il : Nat) (fl : Option Nat)
+
+/-- one step; `none` = `Freezer::open` / `Freezer::truncate` returned an error -/
+def stepTop (c : Cfg) (s : Top) : TopOp → Option Top
+  | .freeze thr get stopped => some (freeze c s thr get stopped).1
+  | .truncate k => truncateTop c s k
+  | .reopen => openTop c s.d
+  | .crash il fl => if INDEX_ENTRY_SIZE ≤ il then crashOpen c s il fl else some s
+
+def runTop (c : Cfg) : Top → List TopOp → Option Top
+  | s, [] => some s
+  | s, op :: ops => (stepTop c s op).bind fun s' => runTop c s' ops
+
+/-- the specification on the plain list of stored blocks -/
+def SpecStepTop (s : Top) (chain : List Block) : TopOp → List Block → Prop
+  | .freeze thr get _, chain' =>
+    ∃ new, chain' = chain ++ new ∧ new.length ≤ thr - (chain.length + 1) ∧
+      ∀ j b, new[j]? = some b → get (chain.length + 1 + j) = some b
+  | .truncate k, chain' => chain' = if 1 ≤ k ∧ k < chain.length then chain.take k else chain
+  | .reopen, chain' => chain' = chain
+  | .crash il fl, chain' =>
+    if INDEX_ENTRY_SIZE ≤ il then
+      ∃ n, n ≤ chain.length ∧ chain' = chain.take n ∧
+        (∀ i, i < chain.length → Survives s.h s.d il fl i → i < n)
+    else chain' = chain
+
+theorem step_top_inv {c : Cfg} (ok : c.Ok) (s : Top) (chain : List Block) (op : TopOp)
+    (hi : TopInv c s chain) :
+    ∃ s' chain', stepTop c s op = some s' ∧ SpecStepTop s chain op chain' ∧ TopInv c s' chain' := by
+  cases op with
+  | freeze thr get stopped =>
+    obtain ⟨_, h2⟩ := freeze_spec hi thr get stopped
+    exact ⟨_, _, rfl, ⟨_, rfl, specRun_length_le _ _ _ _ _, fun j b hj => specRun_get _ _ _ _ _ j b hj⟩, h2⟩
+  | truncate k =>
+    by_cases hk : 1 ≤ k ∧ k < chain.length
+    · obtain ⟨s', h1, h2⟩ := (truncateTop_spec ok hi k).1 hk
+      exact ⟨s', _, h1, by simp [SpecStepTop, hk], h2⟩
+    · exact ⟨s, chain, (truncateTop_spec ok hi k).2 hk, by simp [SpecStepTop, hk], hi⟩
+  | reopen =>
+    obtain ⟨h, d2, ho, hg, hh⟩ := reopen_good hi.good
+    obtain ⟨s', hs, hi', _, _⟩ := openTop_of_open ok ho hg hh hi.linked
+    exact ⟨s', chain, hs, rfl, hi'⟩
+  | crash il fl =>
+    by_cases hc : INDEX_ENTRY_SIZE ≤ il
+    · obtain ⟨s', n, ho, hn, hi', hs⟩ := crashOpen_spec ok hi il fl hc
+      refine ⟨s', chain.take n, by simp [stepTop, hc, ho], ?_, hi'⟩
+      show (if INDEX_ENTRY_SIZE ≤ il then _ else _)
+      rw [if_pos hc]
+      exact ⟨n, hn, rfl, fun i h1 ⟨e, he1, he2, he3⟩ => hs i e h1 he1 he2 he3⟩
+    · exact ⟨s, chain, by simp [stepTop, hc], by simp [SpecStepTop, hc], hi⟩
+
+inductive SpecRunTop (c : Cfg) : Top → List Block → List TopOp → Top → List Block → Prop
+  | nil (s chain) : SpecRunTop c s chain [] s chain
+  | cons {s chain op s' chain' ops s'' chain''} :
+      stepTop c s op = some s' → SpecStepTop s chain op chain' →
+      SpecRunTop c s' chain' ops s'' chain'' → SpecRunTop c s chain (op :: ops) s'' chain''
+
+theorem top_history_inv {c : Cfg} (ok : c.Ok) : ∀ (ops : List TopOp) (s : Top) (chain : List Block),
+    TopInv c s chain →
+    ∃ s' chain', runTop c s ops = some s' ∧ SpecRunTop c s chain ops s' chain' ∧ TopInv c s' chain'
+  | [], s, chain, hi => ⟨s, chain, rfl, .nil s chain, hi⟩
+  | op :: ops, s, chain, hi => by
+    obtain ⟨s1, c1, hs, hsp, hi1⟩ := step_top_inv ok s chain op hi
+    obtain ⟨s2, c2, hr, hsr, hi2⟩ := top_history_inv ok ops s1 c1 hi1
+    exact ⟨s2, c2, by simp [runTop, hs, hr], .cons hs hsp hsr, hi2⟩
+
+/-- **(a)** After ANY history of freeze (any threshold, any block source, any stop flag) /
+    truncate / re-open / crash at any cut (`crash_any_cut`'s cuts) starting from a fresh directory,
+    no `open` or `truncate` fails and the freezer holds exactly the blocks `1 .. number-1` of ONE
+    parent-linked chain `chain'`, each retrieved byte-for-byte (`enc b`, after decompression),
+    nothing else, and `tip` is the last of them; `chain'` follows the list specification
+    (`SpecRunTop`: freeze appends blocks returned by the source for consecutive heights, truncate
+    takes a prefix, a crash keeps a prefix containing every block that survived completely). -/
+theorem freezer_holds_chain_prefix {c : Cfg} (ok : c.Ok) (ops : List TopOp) :
+    ∃ s0, openTop c emptyDisk = some s0 ∧
+    ∃ s' chain', runTop c s0 ops = some s' ∧ SpecRunTop c s0 [] ops s' chain' ∧
+      Holds c s' chain' := by
+  obtain ⟨s0, ho, hi⟩ := open_top_empty c ok
+  obtain ⟨s', chain', hr, hs, hi'⟩ := top_history_inv ok ops s0 [] hi
+  exact ⟨s0, ho, s', chain', hr, hs, holds_of_inv ok hi'⟩
+
+/-- **(b)** One `freeze` call from a freezer holding `chain`: it appends a list `new` of blocks
+    such that the block stored at height `number + j` is the one the source returned for that
+    height (no height skipped or reordered), at most up to the threshold; each appended block's
+    parent hash is the hash of the block stored right before it — the tip at that moment — (none
+    for the very first block of an empty freezer); `Ok` returns exactly their (hash, height,
+    tx count); an `Err` is a parent mismatch of the next block against the (new) tip, with the
+    blocks appended before it kept; an `Ok` short of the threshold is the stop flag or a missing
+    block. -/
+theorem freeze_only_appends_contiguously {c : Cfg} (ok : c.Ok) {s : Top} {chain : List Block}
+    (hi : TopInv c s chain) (thr : Nat) (get : Nat → Option Block) (stopped : Nat → Bool) :
+    ∃ new, TopInv c (freeze c s thr get stopped).1 (chain ++ new) ∧
+      Holds c (freeze c s thr get stopped).1 (chain ++ new) ∧
+      new.length ≤ thr - s.number ∧
+      (∀ j b, new[j]? = some b → get (s.number + j) = some b) ∧
+      (∀ j b t, new[j]? = some b → (chain ++ new)[chain.length + j - 1]? = some t →
+        1 ≤ chain.length + j → b.parent = t.hash) ∧
+      (∀ frozen, (freeze c s thr get stopped).2 = .ok frozen → frozen = entries s.number new) ∧
+      ((freeze c s thr get stopped).2 = .err →
+        ∃ b t, get (s.number + new.length) = some b ∧
+          (freeze c s thr get stopped).1.tip = some t ∧ t.hash ≠ b.parent) ∧
+      ((freeze c s thr get stopped).2 ≠ .err → new.length < thr - s.number →
+        stopped (s.number + new.length) = true ∨ get (s.number + new.length) = none) := by
+  obtain ⟨h1, h2⟩ := freeze_spec hi thr get stopped
+  have hnum : s.number = chain.length + 1 := hi.number
+  have hstop := specRun_stop get stopped (thr - (chain.length + 1)) (chain.length + 1) (tipHash chain)
+  try simp only at h1 h2 hstop
+  generalize hr : specRun get stopped (thr - (chain.length + 1)) (chain.length + 1) (tipHash chain) = r
+    at h1 h2 hstop
+  rw [← tipHash_append] at hstop
+  refine ⟨r.1, h2, holds_of_inv ok h2, ?_, ?_, ?_, ?_, ?_, ?_⟩
+  · rw [hnum, ← hr]; exact specRun_length_le _ _ _ _ _
+  · intro j b hj; rw [hnum]; rw [← hr] at hj; exact specRun_get _ _ _ _ _ j b hj
+  · intro j b t hj ht h1'
+    have hb : (chain ++ r.1)[chain.length + j - 1 + 1]? = some b := by
+      rw [List.getElem?_append_right (by omega)]
+      have : chain.length + j - 1 + 1 - chain.length = j := by omega
+      rw [this]; exact hj
+    exact h2.linked _ t b ht hb
+  · intro frozen hf
+    rw [h1] at hf
+    rw [hnum]
+    split at hf
+    · exact (FreezeOut.ok.inj hf).symm
+    · cases hf
+  · intro he
+    rw [h1] at he
+    have hf : r.2 = false := by
+      cases h : r.2 with
+      | true => simp [h] at he
+      | false => rfl
+    obtain ⟨b, t, hg, hl, hne, _⟩ := hstop.1 hf
+    rw [hnum]
+    have htip := h2.tip
+    unfold tipHash at hl
+    rw [← htip] at hl
+    cases hT : (freeze c s thr get stopped).1.tip with
+    | none => rw [hT] at hl; simp at hl
+    | some tb =>
+      rw [hT] at hl
+      simp only [Option.map_some, Option.some.injEq] at hl
+      exact ⟨b, tb, hg, rfl, by rw [hl]; exact hne⟩
+  · intro hne hlt
+    rw [h1] at hne
+    have hf : r.2 = true := by
+      cases h : r.2 with
+      | true => rfl
+      | false => simp [h] at hne
+    rw [hnum] at hlt ⊢
+    exact hstop.2 hf hlt
+
+/-- **(c)** A freeze of the chain served by `get` up to `thr` is interrupted — after any number of
+    completed appends (`thr1 ≤ thr`, any stop flag) and then by a crash at ANY cut — and the
+    freezer is re-opened: `open` succeeds, `number` did not grow, and the next `freeze … thr`
+    restarts at the re-opened `number` (its map is the entries of heights `number ..`) and ends
+    with exactly the content (`number`, `tip`, every `retrieve`) and the same Ok/Err outcome as the
+    crash-free run `freeze s0 thr`.  "Fed the same chain": `get` still returns the blocks already
+    frozen (`hfed`; needed only for heights the crash lost). -/
+theorem freeze_after_crash_continues {c : Cfg} (ok : c.Ok) {s0 : Top} {chain0 : List Block}
+    (hi : TopInv c s0 chain0) (get : Nat → Option Block)
+    (hfed : ∀ i b, chain0[i]? = some b → get (i + 1) = some b)
+    (thr thr1 : Nat) (stop1 : Nat → Bool) (hthr : thr1 ≤ thr) (hnum : s0.number ≤ thr)
+    (il : Nat) (fl : Option Nat) (hil : INDEX_ENTRY_SIZE ≤ il) :
+    ∃ s2, crashOpen c (freeze c s0 thr1 get stop1).1 il fl = some s2 ∧
+      s2.number ≤ (freeze c s0 thr1 get stop1).1.number ∧
+      ∃ final, Holds c (freeze c s0 thr get noStop).1 final ∧
+        Holds c (freeze c s2 thr get noStop).1 final ∧
+        ((freeze c s0 thr get noStop).2 = .err ↔ (freeze c s2 thr get noStop).2 = .err) ∧
+        (∀ fb, (freeze c s2 thr get noStop).2 = .ok fb →
+          fb = entries s2.number (final.drop (s2.number - 1))) := by
+  have hn0 : s0.number = chain0.length + 1 := hi.number
+  -- the interrupted run
+  obtain ⟨_, hi1⟩ := freeze_spec hi thr1 get stop1
+  try simp only at hi1
+  have hlen1 := specRun_length_le get stop1 (thr1 - (chain0.length + 1)) (chain0.length + 1) (tipHash chain0)
+  have hget1 := specRun_get get stop1 (thr1 - (chain0.length + 1)) (chain0.length + 1) (tipHash chain0)
+  generalize specRun get stop1 (thr1 - (chain0.length + 1)) (chain0.length + 1) (tipHash chain0) = r1
+    at hi1 hlen1 hget1
+  -- everything stored so far is what the source serves
+  have hfedT : ∀ i b, 0 ≤ i → (chain0 ++ r1.1)[i]? = some b → get (i + 1) = some b := by
+    intro i b _ hb
+    by_cases h : i < chain0.length
+    · rw [List.getElem?_append_left h] at hb; exact hfed i b hb
+    · rw [List.getElem?_append_right (by omega)] at hb
+      have := hget1 _ b hb
+      rw [← this]; congr 1; omega
+  have hlT := hi1.linked
+  have hTlen : (chain0 ++ r1.1).length = chain0.length + r1.1.length := by simp
+  -- the crash
+  obtain ⟨s2, n, ho, hn, hi2, _⟩ := crashOpen_spec ok hi1 il fl hil
+  have hn2 : s2.number = n + 1 := by
+    have := hi2.number
+    simp only [List.length_take] at this
+    show s2.h.number = _; omega
+  refine ⟨s2, ho, by rw [hn2]; have := hi1.number; show _ ≤ (freeze c s0 thr1 get stop1).1.h.number; omega, ?_⟩
+  -- the crash-free run, resumed from `chain0`
+  obtain ⟨_, hA⟩ := freeze_spec hi thr get noStop
+  have hresA := specRun_resume get (chain0 ++ r1.1) 0 hfedT hlT r1.1.length chain0.length
+    (thr - (chain0.length + 1)) (by omega) (by omega) (by omega) (by omega)
+  have htk : (chain0 ++ r1.1).take chain0.length = chain0 := by simp
+  have hdr : (chain0 ++ r1.1).drop chain0.length = r1.1 := by simp
+  rw [htk, hdr] at hresA
+  try simp only at hA
+  rw [hresA] at hA
+  -- the run after the crash, resumed from the surviving prefix
+  obtain ⟨hB1, hB⟩ := freeze_spec hi2 thr get noStop
+  have hlk : ((chain0 ++ r1.1).take n).length = n := by simp; omega
+  have hresB := specRun_resume get (chain0 ++ r1.1) 0 hfedT hlT ((chain0 ++ r1.1).length - n) n
+    (thr - (n + 1)) rfl (by omega) hn (by omega)
+  try simp only at hB1 hB
+  rw [hlk] at hB1 hB
+  rw [hresB] at hB1 hB
+  have hfuel : thr - (n + 1) - ((chain0 ++ r1.1).length - n) =
+      thr - (chain0.length + 1) - r1.1.length := by omega
+  rw [hfuel] at hB1 hB
+  have hnl : (chain0 ++ r1.1).length + 1 = chain0.length + r1.1.length + 1 := by omega
+  generalize hX : specRun get noStop (thr - (chain0.length + 1) - r1.1.length)
+    ((chain0 ++ r1.1).length + 1) (tipHash (chain0 ++ r1.1)) = X at hA hB hB1
+  have hfin : (chain0 ++ r1.1).take n ++ ((chain0 ++ r1.1).drop n ++ X.1) = chain0 ++ (r1.1 ++ X.1) := by
+    rw [← List.append_assoc, List.take_append_drop, List.append_assoc]
+  rw [hfin] at hB
+  try simp only at hA
+  refine ⟨chain0 ++ (r1.1 ++ X.1), holds_of_inv ok hA, holds_of_inv ok hB, ?_, ?_⟩
+  · obtain ⟨hA1, _⟩ := freeze_spec hi thr get noStop
+    try simp only at hA1
+    rw [hresA, hX] at hA1
+    rw [hA1, hB1]
+    simp only
+    cases X.2 <;> simp
+  · intro fb hfb
+    rw [hB1] at hfb
+    simp only at hfb
+    split at hfb
+    · have := (FreezeOut.ok.inj hfb).symm
+      have hd : (chain0 ++ (r1.1 ++ X.1)).drop n = (chain0 ++ r1.1).drop n ++ X.1 := by
+        rw [← List.append_assoc, List.drop_append_of_le_length hn]
+      rw [this, hn2, show n + 1 - 1 = n by omega, hd]
+    · cases hfb
+
+/-- **(d)** `truncate n` (for `1 ≤ n < number - 1`) keeps blocks `1..n` with `tip` = block `n`, and
+    freezing a *different* branch that links to block `n` then yields exactly that branch on top:
+    `Ok` with the branch's entries, content `chain.take n ++ branch`. -/
+theorem truncate_then_freeze {c : Cfg} (ok : c.Ok) {s : Top} {chain : List Block}
+    (hi : TopInv c s chain) (n : Nat) (h1 : 1 ≤ n) (h2 : n < chain.length)
+    (branch : List Block) (get : Nat → Option Block)
+    (hget : ∀ j b, branch[j]? = some b → get (n + 1 + j) = some b)
+    (hl : Linked (chain.take n ++ branch)) :
+    ∃ s1, truncateTop c s n = some s1 ∧ Holds c s1 (chain.take n) ∧
+      (freeze c s1 (n + 1 + branch.length) get noStop).2 = .ok (entries (n + 1) branch) ∧
+      Holds c (freeze c s1 (n + 1 + branch.length) get noStop).1 (chain.take n ++ branch) := by
+  obtain ⟨s1, ht, hi1⟩ := (truncateTop_spec ok hi n).1 ⟨h1, h2⟩
+  refine ⟨s1, ht, holds_of_inv ok hi1, ?_⟩
+  have hlk : (chain.take n).length = n := by simp; omega
+  obtain ⟨hr, hinv⟩ := freeze_spec hi1 (n + 1 + branch.length) get noStop
+  try simp only at hr hinv
+  rw [hlk] at hr hinv
+  have hfu : n + 1 + branch.length - (n + 1) = branch.length := by omega
+  rw [hfu] at hr hinv
+  have hfedT : ∀ i b, n ≤ i → (chain.take n ++ branch)[i]? = some b → get (i + 1) = some b := by
+    intro i b hni hb
+    rw [List.getElem?_append_right (by omega), hlk] at hb
+    have := hget _ b hb
+    rw [← this]; congr 1; omega
+  have hres := specRun_resume get (chain.take n ++ branch) n hfedT hl branch.length n branch.length
+    (by simp; omega) (Nat.le_refl _) (by simp; omega) (Nat.le_refl _)
+  have htk : (chain.take n ++ branch).take n = chain.take n := by
+    rw [List.take_append_of_le_length (by omega), List.take_of_length_le (by omega)]
+  have hdr : (chain.take n ++ branch).drop n = branch := by
+    rw [List.drop_append_of_le_length (by omega), List.drop_of_length_le (by omega)]; simp
+  rw [htk, hdr] at hres
+  simp only [Nat.sub_self, specRun, List.append_nil] at hres
+  rw [hres] at hr hinv
+  exact ⟨by simpa using hr, holds_of_inv ok hinv⟩
+
+
+/-! ### non-vacuity of the `Freezer`-layer theorems (kernel-evaluated on the executable model) -/
+
+/-- a toy instance of the parameters: "compression" prefixes a marker byte, the codec writes the
+    four header fields in front of the payload; `max_file_size` 16 = two 7-byte items per file -/
+def demoCfg : Cfg :=
+  { max := 16
+    cmp := fun x => 7 :: x
+    dcmp := fun x => match x with | 7 :: r => some r | _ => none
+    enc := fun b => [b.hash, b.parent, b.number, b.txs] ++ b.payload
+    dec := fun x => match x with | h :: p :: n :: t :: pl => some ⟨h, p, n, t, pl⟩ | _ => none }
+
+/-- the hypotheses `Cfg.Ok` are satisfiable -/
+theorem demoCfg_ok : demoCfg.Ok := ⟨fun _ => rfl, fun _ => rfl⟩
+
+def chainA : List Block :=
+  [⟨11, 10, 1, 1, [1, 1]⟩, ⟨12, 11, 2, 2, [2, 2]⟩, ⟨13, 12, 3, 1, [3, 3]⟩, ⟨14, 13, 4, 3, [4, 4]⟩]
+/-- another branch on top of block 12 -/
+def branchB : List Block := [⟨23, 12, 3, 1, [5, 5, 5]⟩, ⟨24, 23, 4, 2, [6]⟩]
+/-- the third block does not link to the second -/
+def brokenC : List Block := [⟨11, 10, 1, 1, [1, 1]⟩, ⟨12, 11, 2, 2, [2, 2]⟩, ⟨33, 99, 3, 1, [3, 3]⟩]
+def serve (l : List Block) (start : Nat) : Nat → Option Block :=
+  fun n => if n < start then none else l[n - start]?
+
+def demoView (s : Top) :=
+  (s.number, s.tip.map (·.hash), s.d.idx.map (fun e => (e.fid, e.off)), retrieveTop demoCfg s 3)
+
+/-- (a): freeze four blocks (rolling into file 1), crash with the index at 4 entries + 5 bytes and
+    file 1 at 3 bytes (blocks 3 and 4 are lost), freeze again, truncate to 2, freeze the other
+    branch, re-open: blocks 11, 12, 23, 24 with tip 24 -/
+example : ((openTop demoCfg emptyDisk).bind fun s0 => runTop demoCfg s0
+    [.freeze 5 (serve chainA 1) noStop, .crash (12 * 4 + 5) (some 3), .freeze 5 (serve chainA 1) noStop,
+     .truncate 2, .freeze 5 (serve branchB 3) noStop, .reopen]).map demoView =
+    some (5, some 24, [(0, 0), (0, 7), (0, 14), (1, 8), (1, 14)], .some [23, 12, 3, 1, 5, 5, 5]) := by
+  decide
+
+/-- the crash in the history above really loses blocks -/
+example : ((openTop demoCfg emptyDisk).bind fun s0 => runTop demoCfg s0
+    [.freeze 5 (serve chainA 1) noStop, .crash (12 * 4 + 5) (some 3)]).map demoView =
+    some (3, some 12, [(0, 0), (0, 7), (0, 14)], .none) := by decide
+
+/-- (b): a broken parent link at height 3 — `Err`, blocks 1 and 2 stay, tip 12; and the stop flag
+    seen at height 3 — `Ok` with the two entries -/
+example : ((openTop demoCfg emptyDisk).map fun s0 =>
+      let r := freeze demoCfg s0 9 (serve brokenC 1) noStop
+      let r' := freeze demoCfg s0 9 (serve chainA 1) (fun n => n > 2)
+      (r.2, r.1.number, r.1.tip.map (·.hash), r'.2, r'.1.number)) =
+    some (.err, 3, some 12, .ok [(11, 1, 1), (12, 2, 2)], 3) := by decide
+
+/-- (c): interrupted after 3 blocks, crashed at a cut that loses block 3, re-opened at number 3,
+    frozen again to threshold 5: same content as the crash-free run, the map restarts at 3 -/
+example : ((openTop demoCfg emptyDisk).bind fun s0 =>
+      let a := freeze demoCfg s0 5 (serve chainA 1) noStop
+      let s1 := (freeze demoCfg s0 4 (serve chainA 1) noStop).1
+      (crashOpen demoCfg s1 (12 * 4) (some 2)).map fun s2 =>
+        let b := freeze demoCfg s2 5 (serve chainA 1) noStop
+        (s1.number, s2.number, b.2, demoView a.1 == demoView b.1, a.1.number)) =
+    some (4, 3, .ok [(13, 3, 1), (14, 4, 3)], true, 5) := by decide
+
+/-- (d): the hypotheses are satisfiable (a real fork) and the result is the other branch -/
+example : ((openTop demoCfg emptyDisk).bind fun s0 =>
+      (truncateTop demoCfg (freeze demoCfg s0 5 (serve chainA 1) noStop).1 2).map fun s1 =>
+        let r := freeze demoCfg s1 (2 + 1 + branchB.length) (serve branchB 3) noStop
+        (s1.number, s1.tip.map (·.hash), r.2,
+          demoView r.1 ==
+            (5, some 24, [(0, 0), (0, 7), (0, 14), (1, 8), (1, 14)], .some [23, 12, 3, 1, 5, 5, 5]))) =
+    some (3, some 12, .ok [(23, 3, 1), (24, 4, 2)], true) := by
+  decide
 
 end CkbVerif.C09
